@@ -86,7 +86,7 @@ Inductive rpc :=
 | LockCheck (kl : klock)                  (* lock: is_locked() load next *)
 | ScanStart (k : kscan)                   (* load generation counter (Acquire) next *)
 | ScanCell (init n count : N) (k : kscan) (* load cell n next *)
-| LockCas (gen : N) (kl : klock)
+| LockCas (gn : N) (kl : klock)
 | RecLoad (n d : N) (m : rmode) (mask : N)
 | RecCas (n d : N) (m : rmode) (mask : N)
 | RecEnd (mask : N).
@@ -98,7 +98,7 @@ Record rgst := {
   (* ghost *)
   rholder : list (option Datatypes.nat);  (* cell -> thread whose acquire CAS populated it *)
   rdone : list bool;                      (* that acquire has incremented the generation counter (returned Ok) *)
-  relpend : list N;                       (* cell -> number of release/recover CASes whose generation increment is pending *)
+  cleared_at : list (option N);           (* cell -> value of the generation counter when a release/recover last cleared it *)
   recovered : list N                      (* owner ids some recover CAS has succeeded for *)
 }.
 
@@ -110,11 +110,11 @@ Definition dist_ev (dist : N) (site : N) : ev := EAcc site B_RDIST 0 KLoad Relax
 Definition set_r (l : rlst) (p : list rop) (c : rpc) (h : list (N * N)) : rlst :=
   {| rprog := p; rpc_of := c; rheld := h |}.
 
-Definition set_cell (g : rgst) (i v : N) (ho : option Datatypes.nat) (dn : bool) (rp : N) (rec : list N) : rgst :=
+Definition set_cell (g : rgst) (i v : N) (ho : option Datatypes.nat) (ca : option N) (rec : list N) : rgst :=
   {| rcap := rcap g; rdist := rdist g; cells := updN (cells g) i v; gen := gen g;
-     rholder := updN (rholder g) i ho; rdone := updN (rdone g) i dn; relpend := updN (relpend g) i rp; recovered := rec |}.
-Definition set_gen (g : rgst) (v : N) (dn : list bool) (rp : list N) : rgst :=
-  {| rcap := rcap g; rdist := rdist g; cells := cells g; gen := v; rholder := rholder g; rdone := dn; relpend := rp; recovered := recovered g |}.
+     rholder := updN (rholder g) i ho; rdone := updN (rdone g) i false; cleared_at := updN (cleared_at g) i ca; recovered := rec |}.
+Definition set_gen (g : rgst) (v : N) (dn : list bool) : rgst :=
+  {| rcap := rcap g; rdist := rdist g; cells := cells g; gen := v; rholder := rholder g; rdone := dn; cleared_at := cleared_at g; recovered := recovered g |}.
 
 Definition acq_next (g : rgst) (d cur n : N) : rpc := if N.ltb n (rcap g) then AScan d cur n else AFinal d cur.
 Definition rec_next (g : rgst) (n d : N) (m : rmode) (mask : N) : rpc :=
@@ -143,13 +143,17 @@ Definition k_inc_ret (g : rgst) (h : list (N * N)) (r : N) (k : kinc) : rpc * li
   | KScan init count k => if N.eqb (init + 1) r then k_scan_ret g h r count k else (ScanStart k, [], h)
   end.
 
-(* ghost bookkeeping when an increment_generation_counter call ends (result r) *)
-Definition inc_done_ghost (g : rgst) (r : N) (k : kinc) : list bool * list N :=
+(* ghost bookkeeping when an increment_generation_counter call ends (result r): an acquire that
+   still holds its cell and got a real generation value has completed *)
+Definition inc_done_ghost (g : rgst) (t : nat) (r : N) (k : kinc) : list bool :=
   match k with
-  | KAcq d n => (if N.eqb r MAX64 then rdone g else updN (rdone g) n true, relpend g)
-  | KRel i _ => (rdone g, updN (relpend g) i (nthN (relpend g) i 0 - 1))
-  | KRec n _ _ _ => (rdone g, updN (relpend g) n (nthN (relpend g) n 0 - 1))
-  | KScan _ _ _ => (rdone g, relpend g)
+  | KAcq d n =>
+    if N.eqb r MAX64 then rdone g
+    else match nthN (rholder g) n None with
+         | Some t' => if Nat.eqb t t' then updN (rdone g) n true else rdone g
+         | None => rdone g
+         end
+  | _ => rdone g
   end.
 
 Definition fin (g : rgst) (l : rlst) (p : list rop) (x : rpc * list ev * list (N * N)) (e : ev) : option (rgst * rlst * list ev) :=
@@ -166,7 +170,10 @@ Definition rstep (t : nat) (g : rgst) (l : rlst) : option (rgst * rlst * list ev
   | RIdle =>
     match rprog l with
     | [] => None
-    | RAcq d :: p => Some (g, set_r l p (AStart d) (rheld l), [dist_ev (rdist g) 53])
+    | RAcq d :: p =>
+      (* OwnerId::new refuses u64::MAX: such an op never reaches acquire *)
+      if N.eqb d EMPTY then Some (g, set_r l p RIdle (rheld l), [])
+      else Some (g, set_r l p (AStart d) (rheld l), [dist_ev (rdist g) 53])
     | RRel m front :: p =>
       match (if front then rheld l else rev (rheld l)) with
       | [] => Some (g, set_r l p RIdle (rheld l), [])
@@ -190,7 +197,7 @@ Definition rstep (t : nat) (g : rgst) (l : rlst) : option (rgst * rlst * list ev
   | RelCell i d m =>
     let v := nthN (cells g) i 0 in
     if N.eqb v d
-    then Some (set_cell g i EMPTY None false (nthN (relpend g) i 0 + 1) (recovered g),
+    then Some (set_cell g i EMPTY None (Some (gen g)) (recovered g),
                set_r l (rprog l) (IncLoad (KRel i m)) (rheld l),
                [EAcc 60 B_CELL i KCas Relaxed Relaxed v EMPTY true])
     else Some (g, set_r l (rprog l) RIdle (rheld l),
@@ -200,7 +207,7 @@ Definition rstep (t : nat) (g : rgst) (l : rlst) : option (rgst * rlst * list ev
   | AScan d cur n =>
     let v := nthN (cells g) n 0 in
     if N.eqb v EMPTY
-    then Some (set_cell g n d (Some t) false (nthN (relpend g) n 0) (recovered g),
+    then Some (set_cell g n d (Some t) (nthN (cleared_at g) n None) (recovered g),
                set_r l (rprog l) (IncLoad (KAcq d n)) (rheld l),
                [EAcc 51 B_CELL n KCas Relaxed Relaxed v d true])
     else Some (g, set_r l (rprog l) (acq_next g d cur (n + 1)) (rheld l),
@@ -215,18 +222,15 @@ Definition rstep (t : nat) (g : rgst) (l : rlst) : option (rgst * rlst * list ev
   | IncLoad k =>
     let e := EAcc 90 B_GEN 0 KLoad Relaxed Relaxed (gen g) 0 true in
     if N.eqb (gen g) MAX64
-    then let '(dn, rp) := inc_done_ghost g MAX64 k in
-         fin (set_gen g (gen g) dn rp) l (rprog l) (k_inc_ret g (rheld l) MAX64 k) e
+    then fin g l (rprog l) (k_inc_ret g (rheld l) MAX64 k) e
     else Some (g, set_r l (rprog l) (IncCas (gen g) k) (rheld l), [e])
   | IncCas c k =>
     if N.eqb (gen g) c
-    then let '(dn, rp) := inc_done_ghost g (c + 1) k in
-         fin (set_gen g (c + 1) dn rp) l (rprog l) (k_inc_ret g (rheld l) (c + 1) k)
+    then fin (set_gen g (c + 1) (inc_done_ghost g t (c + 1) k)) l (rprog l) (k_inc_ret g (rheld l) (c + 1) k)
              (EAcc 91 B_GEN 0 KCas Release Relaxed c (c + 1) true)
     else let e := EAcc 91 B_GEN 0 KCas Release Relaxed (gen g) (c + 1) false in
          if N.eqb (gen g) MAX64
-         then let '(dn, rp) := inc_done_ghost g MAX64 k in
-              fin (set_gen g (gen g) dn rp) l (rprog l) (k_inc_ret g (rheld l) MAX64 k) e
+         then fin g l (rprog l) (k_inc_ret g (rheld l) MAX64 k) e
          else Some (g, set_r l (rprog l) (IncCas (gen g) k) (rheld l), [e])
   | LockCheck kl =>
     let e := EAcc 81 B_GEN 0 KLoad Relaxed Relaxed (gen g) 0 true in
@@ -239,7 +243,7 @@ Definition rstep (t : nat) (g : rgst) (l : rlst) : option (rgst * rlst * list ev
           [EAcc 83 B_CELL n KLoad Relaxed Relaxed v 0 true])
   | LockCas gn kl =>
     if N.eqb (gen g) gn
-    then fin (set_gen g MAX64 (rdone g) (relpend g)) l (rprog l) (k_lock_ret g (rheld l) true kl)
+    then fin (set_gen g MAX64 (rdone g)) l (rprog l) (k_lock_ret g (rheld l) true kl)
              (EAcc 84 B_GEN 0 KCas Relaxed Relaxed gn MAX64 true)
     else Some (g, set_r l (rprog l) (ScanDist (KLock kl)) (rheld l),
                [EAcc 84 B_GEN 0 KCas Relaxed Relaxed (gen g) MAX64 false])
@@ -252,7 +256,7 @@ Definition rstep (t : nat) (g : rgst) (l : rlst) : option (rgst * rlst * list ev
   | RecCas n d m mask =>
     let v := nthN (cells g) n 0 in
     if N.eqb v d
-    then Some (set_cell g n EMPTY None false (nthN (relpend g) n 0 + 1) (d :: recovered g),
+    then Some (set_cell g n EMPTY None (Some (gen g)) (d :: recovered g),
                set_r l (rprog l) (IncLoad (KRec n d m (mask + 2 ^ n))) (rheld l),
                [EAcc 72 B_CELL n KCas Relaxed Relaxed v EMPTY true])
     else Some (g, set_r l (rprog l) (rec_next g (n + 1) d m mask) (rheld l),
@@ -265,6 +269,6 @@ Definition rstep (t : nat) (g : rgst) (l : rlst) : option (rgst * rlst * list ev
 Definition rg_init (c dist : N) : rgst :=
   {| rcap := c; rdist := dist; cells := repeat EMPTY (N.to_nat c); gen := 0;
      rholder := repeat None (N.to_nat c); rdone := repeat false (N.to_nat c);
-     relpend := repeat 0 (N.to_nat c); recovered := [] |}.
+     cleared_at := repeat None (N.to_nat c); recovered := [] |}.
 Definition rl_init (p : list rop) : rlst := {| rprog := p; rpc_of := RIdle; rheld := [] |}.
 Definition rinit (c dist : N) (progs : nat -> list rop) : cfg rgst rlst := (rg_init c dist, fun t => rl_init (progs t)).
